@@ -82,7 +82,7 @@ class C29(Prop):
     props_file = "Props/C29.v"
     preamble = ("From Coq Require Import List QArith ZArith.\nImport ListNotations.\n"
                 "From PP Require Import Model.C28 Model.C29.\nOpen Scope Q_scope.\n")
-    n_cases = (260, 5000)
+    n_cases = (240, 3000)
     design_ref = "DESIGN.md §5 C29"
     level_text = (
         "Coq theorems over an executable Q-transcription of split_intersecting_segments_2d "
